@@ -6,7 +6,10 @@ package main
 // stream are the observables.
 
 import (
+	"encoding/hex"
 	"fmt"
+	"os"
+	"strconv"
 	"strings"
 	"time"
 
@@ -415,8 +418,55 @@ var adversarial = []string{
 	"INSERT INTO t (a) VALUES (1); INSERT INTO t (a) VALUES (now())", "INSERT INTO t (a) VALUES (1) ; garbage", "INSERT INTO t (a) VALUES (1) garbage", "INSERT INTO t (a) VALUES (1) USING TTL now()",
 }
 
+// astCases: statements the extracted Coq sampler generated from the syntax of Model/Ast.v (file named by
+// VH_C06_AST: seed TAB (xTEXT (tokens) doc cls plain wf)).  The implementation classifies and lexes the text the
+// model printed, and two re-spellings of it.
+func astCases(ctx *Ctx) {
+	path := os.Getenv("VH_C06_AST")
+	if path == "" {
+		return
+	}
+	data, err := os.ReadFile(path)
+	if err != nil {
+		return
+	}
+	r := ctx.Rng
+	for _, line := range strings.Split(string(data), "\n") {
+		parts := strings.SplitN(line, "\t", 2)
+		if len(parts) != 2 || !strings.HasPrefix(parts[1], "(x") {
+			continue
+		}
+		seed, err := strconv.ParseInt(parts[0], 10, 64)
+		if err != nil {
+			continue
+		}
+		hx := parts[1][2:]
+		if i := strings.IndexAny(hx, " )"); i >= 0 {
+			hx = hx[:i]
+		}
+		text, err := hex.DecodeString(hx)
+		if err != nil {
+			continue
+		}
+		q := string(text)
+		variants := []string{q, respell(r, q), respell(r, q)}
+		for vi, v := range variants {
+			note := "ast-canonical"
+			if vi > 0 {
+				note = "ast-respelled"
+				if v == q {
+					continue
+				}
+			}
+			ctx.Emit(hv.L(hv.I(2), hv.I(seed), hv.S(v)), hv.L(classifyIdem(v), lexV(v)), note)
+			ctx.Count(note)
+		}
+	}
+}
+
 func genC06(ctx *Ctx) {
 	r := ctx.Rng
+	astCases(ctx)
 	seen := map[string]bool{}
 	emitLex := func(q string) {
 		ctx.Emit(hv.L(hv.I(0), hv.S(q)), lexV(q), "lex")
